@@ -1,0 +1,77 @@
+//go:build verif
+// +build verif
+
+// Contracts for package ports, read only by the verifier in /verif (build tag verif).
+// This file contains no code.
+//
+// Two bindings on the same (network, transport, port) conflict iff either is for the
+// wildcard address "" or both are for the same address. A set m of bound addresses is
+// free for addr iff no element of m conflicts with addr.
+
+package ports
+
+//@ define conflicts(x, y) = x == "" || y == "" || x == y
+//@ define freeFor(m, addr) = ite(addr == "", len(m) == 0, !has(m, "") && !has(m, addr))
+//@ define availOn(s, n, t, addr, p) =
+//@     !has(s.allocatedPorts, portDescriptor{n, t, p}) || freeFor(s.allocatedPorts[portDescriptor{n, t, p}], addr)
+//@ define heldOn(s, n, t, addr, p) =
+//@     has(s.allocatedPorts, portDescriptor{n, t, p}) && has(s.allocatedPorts[portDescriptor{n, t, p}], addr)
+
+// Representation invariant of the port manager: no nil inner map is stored.
+//@ define pmOK(s) = s.allocatedPorts != nil && forallkey(d, s.allocatedPorts, implies(has(s.allocatedPorts, d), s.allocatedPorts[d] != nil))
+
+// isAvailable(addr) holds exactly when no bound address conflicts with addr.
+//@ func (bindAddresses).isAvailable props C10
+//@   ensures result == freeFor(b, addr)
+//@   ensures implies(result, forallkey(x, b, implies(has(b, x), !conflicts(x, addr))))
+//@   ensures implies(forallkey(x, b, implies(has(b, x), !conflicts(x, addr))), result)
+
+//@ func (*PortManager).isPortAvailableLocked props C10
+//@   ensures implies(result, forall(j, 0, len(networks), availOn(s, networks[j], transport, addr, port)))
+//@   ensures implies(forall(j, 0, len(networks), availOn(s, networks[j], transport, addr, port)), result)
+//@   loop 1 invariant forall(j, 0, rangeindex + 1, availOn(s, networks[j], transport, addr, port))
+
+// A reservation succeeds only if it was available on every network, and then it is held on
+// every network; a failed reservation changes nothing.
+//@ func (*PortManager).reserveSpecificPort props C10
+//@   requires pmOK(s)
+//@   ensures pmOK(s)
+//@   ensures implies(result, old(forall(j, 0, len(networks), availOn(s, networks[j], transport, addr, port))))
+//@   ensures implies(result, forall(j, 0, len(networks), heldOn(s, networks[j], transport, addr, port)))
+//@   ensures implies(!old(forall(j, 0, len(networks), availOn(s, networks[j], transport, addr, port))), !result)
+//@   loop 1 invariant forall(j, 0, rangeindex + 1, heldOn(s, networks[j], transport, addr, port))
+//@   loop 1 invariant pmOK(s)
+//@   modifies entries(s.allocatedPorts), mapfamily(bindAddresses)
+
+//@ func NewPortManager props C10
+//@   ensures result != nil && pmOK(result) && fresh(result)
+//@   ensures forallkey(d, result.allocatedPorts, !has(result.allocatedPorts, d))
+
+//@ func (*PortManager).IsPortAvailable props C10
+//@   ensures implies(result, forall(j, 0, len(networks), availOn(s, networks[j], transport, addr, port)))
+//@   ensures implies(forall(j, 0, len(networks), availOn(s, networks[j], transport, addr, port)), result)
+
+// After a release the reservation is no longer held on any of the networks; bindings on other
+// (transport, port) pairs are untouched.
+//@ func (*PortManager).ReleasePort props C10
+//@   requires pmOK(s)
+//@   ensures pmOK(s)
+//@   ensures forall(j, 0, len(networks), !heldOn(s, networks[j], transport, addr, port))
+//@   ensures forallkey(d, s.allocatedPorts, implies(d.transport != transport || d.port != port,
+//@             has(s.allocatedPorts, d) == old(has(s.allocatedPorts, d)) && s.allocatedPorts[d] == old(s.allocatedPorts[d])))
+//@   loop 1 invariant pmOK(s)
+//@   loop 1 invariant forall(j, 0, rangeindex + 1, !heldOn(s, networks[j], transport, addr, port))
+//@   loop 1 invariant forallkey(d, s.allocatedPorts, implies(d.transport != transport || d.port != port,
+//@             has(s.allocatedPorts, d) == old(has(s.allocatedPorts, d)) && s.allocatedPorts[d] == old(s.allocatedPorts[d])))
+//@   modifies entries(s.allocatedPorts), mapfamily(bindAddresses)
+
+// The ephemeral search tests port(k) = 16000 + (offset + k) mod 49536 for k = 0 .. 49535 in
+// turn (offset the random start); it returns the first accepted port and gives up only after
+// every port of [16000, 65535] has been rejected.
+//@ func (*PortManager).PickEphemeralPort props C10
+//@   pure_param testPort
+//@   ensures implies(err == nil, port >= 16000 && callp1(testPort, port))
+//@   ensures implies(err == tcpip.ErrNoPortAvailable && forall(q, 16000, 65536, callp2(testPort, uint16(q)) == nil),
+//@             forall(p, 16000, 65536, using((p - 16000 - int(local(offset)) + 49536) % 49536, !callp1(testPort, uint16(p)))))
+//@   loop 1 invariant count == 49536 && uint32(offset) < 49536 && i <= count
+//@   loop 1 invariant forall(k, 0, int(i), !callp1(testPort, uint16(16000 + (int(offset) + k) % 49536)) && callp2(testPort, uint16(16000 + (int(offset) + k) % 49536)) == nil)
